@@ -122,7 +122,7 @@ def write_evidence(res, mod, exhaustive, nviol, known_ids, harness_err):
     meta = getattr(mod, "META", {})
     cov = dict(
         states=int(res["agg"]["paths"]),
-        transitions=int(st.get("decisions", 0)),
+        transitions=int(st.get("decisions", 0) + st.get("realize", 0)),
         traces_validated_against_impl=int(res["agg"]["shadow_ok"]),
         samples=res["samples"][:4] or [dict(note="no completed path")],
         evaluations=int(res["agg"]["paths"]),
